@@ -206,6 +206,11 @@ func Flush() {
 	}
 	mu.Lock()
 	defer mu.Unlock()
+	for _, k := range []string{"WHAWTY_AUTH_DEBUG"} { // environment variants a job was started under
+		if _, ok := os.LookupEnv(k); ok && evals > 0 {
+			classes["env:"+k+"-set"] += evals
+		}
+	}
 	s := Stats{Evaluations: evals, Classes: classes, Samples: samples, Excluded: excluded,
 		KnownHits: knownHits, Inconclusive: inconcl, Violations: viols, Extra: extra}
 	for k := range fps {
